@@ -260,7 +260,8 @@ class FormulaParser(Parser):
         """
         expression : variable_sequence
         """
-        p[0] = self.call_variable(p[1][0])
+        # a dotted name is one name: looking up its first part only made x.nosuch the value of x
+        p[0] = self.call_variable('.'.join(p[1]))
 
     def p_variable(self, p):
         """
